@@ -36,12 +36,10 @@ func requestTableGuards(ctx *Ctx, r *Result) (*RequestTable, bool) {
 			r.fail("R0.1", "effect "+u, "", "effect without a transfer function on "+rp.Describe())
 			ok = false
 		}
-		for n := range rp.A {
-			if strings.HasPrefix(n, "?") {
-				r.undecided("R0.1", "atom "+n, "branch condition the rules cannot classify on "+rp.Describe())
-				ok = false
-			}
-		}
+		// branch conditions the rules have no name for are kept as opaque,
+		// unconstrained atoms: per-path rules quantify over both outcomes, pair
+		// rules treat them by the request headers their text mentions
+
 		for _, w := range rp.Writes {
 			if strings.HasPrefix(w.Key, "?") {
 				r.fail("R0.1", "header-key "+w.Key, w.At, "response header written under a non-constant name")
@@ -206,6 +204,8 @@ func checkC03(ctx *Ctx) *Result {
 		}
 	}
 	checkFirst(ctx, r)
+	// "allowed origin" rests on the origin tree: its structural necessary conditions
+	treeRules(ctx, r)
 	return r
 }
 
